@@ -196,8 +196,12 @@ impl AnimationManager {
             let blend_time = next_seq.blend_time as f64;
 
             if blend_time > 0.0 && time_left < blend_time {
-                self.next_animation.animation_time =
-                    (blend_time - time_left) % next_seq.duration as f64;
+                // A zero-duration sequence has no time to advance into (x % 0.0 is NaN)
+                self.next_animation.animation_time = if next_seq.duration > 0 {
+                    (blend_time - time_left) % next_seq.duration as f64
+                } else {
+                    0.0
+                };
                 self.blend_factor = (time_left / blend_time) as f32;
             } else {
                 self.blend_factor = 1.0;
